@@ -214,6 +214,13 @@ func runFs() {
 		fs.Mkdir("d")
 		fs.Mkdir("quiet")
 		fs.AtomicCreate("quiet", "x", []byte("x"))
+		// one file every client reads while client 0 appends to it (some appends larger than any plausible chunk):
+		// a read must see whole appends only
+		sharedW, _ := fs.Create("d", "shared")
+		sharedR := make([]filesys.File, fThreads)
+		for c := range sharedR {
+			sharedR[c] = fs.Open("d", "shared")
+		}
 		t0 := time.Now()
 		var mu sync.Mutex
 		var hist []histOp
@@ -273,6 +280,23 @@ func runFs() {
 					}
 				}
 				for k := 0; k < fOps; k++ {
+					if sel := lr.Intn(8); sel == 0 && c == 0 {
+						data := fmt.Sprintf("{%d}", k)
+						if lr.Intn(3) == 0 {
+							data = strings.Repeat(data, 70000/len(data)+1)
+						}
+						do(fsIn{Op: "append", Fd: int(sharedW), Data: data}, func() fsOut {
+							fs.Append(sharedW, []byte(data))
+							return fsOut{}
+						})
+						continue
+					} else if sel == 1 {
+						fd := sharedR[c]
+						do(fsIn{Op: "readall", Fd: int(fd)}, func() fsOut {
+							return fsOut{Data: string(fs.ReadAt(fd, 0, 1<<24))}
+						})
+						continue
+					}
 					switch lr.Intn(10) {
 					case 0:
 						if !triedHot { // concurrent Create of one name: exactly one succeeds
@@ -392,21 +416,49 @@ func runFs() {
 		}
 		// the model's initial state mirrors the set-up calls
 		init := func() interface{} {
-			s := &fsState{dirents: map[string]int{"quiet/x": 0}, inodes: map[int]string{0: "x"}, fds: map[int][2]int{}, nextIno: 1}
+			s := &fsState{dirents: map[string]int{"quiet/x": 0, "d/shared": 1}, inodes: map[int]string{0: "x", 1: ""},
+				fds: map[int][2]int{int(sharedW): {1, 1}}, nextIno: 2}
+			for _, f := range sharedR {
+				s.fds[int(f)] = [2]int{1, 0}
+			}
 			return s
 		}
 		m := fsModel
 		m.Init = init
-		ops := make([]porcupine.Operation, len(hist))
+		// reads of the shared file that show PART of an append (client 0 appends sequentially, so the legal contents are
+		// the concatenations of its first j appends) are reported separately and kept out of the model check, so that the
+		// rest of the history is still judged
+		isShared := map[int]bool{}
+		for _, f := range sharedR {
+			isShared[int(f)] = true
+		}
+		legal := map[string]bool{"": true}
+		acc := ""
+		for _, h := range hist {
+			if in := h.In.(fsIn); in.Op == "append" && in.Fd == int(sharedW) {
+				acc += in.Data
+				legal[acc] = true
+			}
+		}
+		torn := ""
+		var ops []porcupine.Operation
 		problem := ""
-		for i, h := range hist {
-			ops[i] = porcupine.Operation{ClientId: h.Client, Input: h.In, Output: h.Out, Call: h.Call, Return: h.Ret}
-			if h.Out.(fsOut).Panic {
+		for _, h := range hist {
+			in, out := h.In.(fsIn), h.Out.(fsOut)
+			if in.Op == "readall" && isShared[in.Fd] && !out.Panic && !legal[out.Data] {
+				if torn == "" {
+					torn = fmt.Sprintf("client %d read %d bytes of the shared file through descriptor %d: not the result of any whole number of appends (ends %q)",
+						h.Client, len(out.Data), in.Fd, clip(out.Data[max(0, len(out.Data)-24):]))
+				}
+				continue
+			}
+			ops = append(ops, porcupine.Operation{ClientId: h.Client, Input: h.In, Output: h.Out, Call: h.Call, Return: h.Ret})
+			if out.Panic {
 				problem = fmt.Sprintf("client %d: %v panicked although every precondition holds", h.Client, h.In)
 			}
 		}
 		res := porcupine.CheckOperationsTimeout(m, ops, 30*time.Second)
-		rr := roundResult{Round: round, Ops: len(hist), Linearizable: string(res), Problem: problem, Overlaps: countOverlaps(hist)}
+		rr := roundResult{Round: round, Ops: len(hist), Linearizable: string(res), Torn: torn, Problem: problem, Overlaps: countOverlaps(hist)}
 		if res == porcupine.Illegal || problem != "" {
 			rr.History = hist
 		}
